@@ -121,7 +121,7 @@ const NON_MOVES: [Action; 6] = [
 /// Roots of the exhaustive sequences: (label, FEN, prefix moves, alphabet moves, full
 /// non-move alphabet?).  Roots with a prefix use the reduced non-move alphabet
 /// {offer:w, accept, decline, resign:b} to keep the replayed prefixes affordable.
-const ROOTS: [(&str, &str, &[&str], &[&str], bool); 21] = [
+const ROOTS: [(&str, &str, &[&str], &[&str], bool); 23] = [
     ("start", gen::START_FEN, &[], &["e2e4", "e7e5", "Ng1f3"], true),
     ("mate_w", "6k1/5ppp/8/8/8/8/8/R3K3 w Q - 0 1", &[], &["Ra1a8", "Ke1e2", "O-O-O", "Ra1b2"], true),
     ("mate_b", "r3k3/8/8/8/8/8/5PPP/6K1 b q - 0 1", &[], &["Ra8a1", "Ke8e7", "O-O-O", "Kg1f1"], true),
@@ -194,6 +194,9 @@ const ROOTS: [(&str, &str, &[&str], &[&str], bool); 21] = [
         &["Nb4d3", "Nb4c2", "e7e5", "c2c3"],
         false,
     ),
+    // castling that gives check / mate (flags of the recorded move)
+    ("castle_check", "5k2/8/8/8/8/8/8/4K2R w K - 0 1", &[], &["O-O", "Rh1f1", "Ke1e2", "Kf8e8"], true),
+    ("castle_mate", "2rkr3/2p1p3/8/8/8/8/8/R3K3 w Q - 0 1", &[], &["O-O-O", "Ra1d1", "Ke1e2", "Kd8d7"], true),
     (
         "shuffle_knights",
         gen::START_FEN,
